@@ -284,9 +284,11 @@ fn c10_operand(r: &mut Rng) -> W {
         2 => (f64::NEG_INFINITY, f64::NEG_INFINITY),
         3 => (f64::INFINITY, 0.0),
         4 => (f64::INFINITY, f64::NAN),
-        5 => (0.0, 0.0),
+        5 => pk!(r, [(0.0, 0.0), (0.0, -0.0)]),
         6 => (-0.0, 0.0),
         7 => (-0.0, -0.0),
+        12 | 13 => crate::pools::published_const(r),
+        14 => crate::pools::round_integer(r),
         8 | 9 => tf_in(r, -1022, 1023),
         10 | 11 => tf_in(r, -3, 3),
         _ => tf_in(r, -100, 100),
@@ -296,14 +298,15 @@ fn c10_operand(r: &mut Rng) -> W {
 pub fn c10(c: &mut Ctx) {
     let n = c.budget(40_000_000, 2_000_000_000) / 60;
     for i in 0..n {
-        let a = c10_operand(&mut c.rng);
+        let a = if c.rng.chance(1, 12) { if c.rng.coin() { tf_in(&mut c.rng, -1022, -980) } else { tf_in(&mut c.rng, 980, 1023) } } else { c10_operand(&mut c.rng) };
         let b = if a.0.is_finite() && a.0 != 0.0 && c.rng.coin() {
             let rel = c.rng.below(N_PAIR_RELS);
             tf_related(&mut c.rng, a, -1022, 1023, rel)
         } else {
             c10_operand(&mut c.rng)
         };
-        let f = match c.rng.below(8) {
+        let f = match c.rng.below(9) {
+            8 => pow2(c.rng.range(-60, 60)) * if c.rng.coin() { 1.0 } else { -1.0 },
             0 => a.0,
             1 => -a.0,
             2 => f64_any(&mut c.rng),
@@ -327,7 +330,8 @@ pub fn c10(c: &mut Ctx) {
                 (h.abs(), if h < 0.0 { -l } else { l })
             }
         };
-        let y = match i % 4 {
+        let y = match i % 5 {
+            4 => crate::pools::published_const(&mut c.rng),
             0 => (c.rng.range(-9, 9) as f64, 0.0),
             1 => tf_in(&mut c.rng, -3, 3),
             _ => c10_operand(&mut c.rng),
